@@ -33,39 +33,59 @@ theorem parseName_examples :
     ∧ parseName [85,105,110,116,65,115,115,101,114,116] = none := by                               -- UintAssert
   decide +kernel
 
-/-- REGENERATED FACT.  The model's `reverseBytes64` IS bitio.ReverseBytes64 as it stands in the
-    repository (go/ast translation of every case's mask/shift/or expression to `BitVec 64`), by
-    definitional unfolding -/
-theorem gen_reverseBytes64_ok (nBits : Nat) (n : BitVec 64) :
-    FqModel.Gen.BitFns.reverseBytes64 nBits n = FqModel.Scalar.reverseBytes64 nBits n := rfl
+/-! ### the translated bit functions (FqModel/Gen/BitFns.lean, extract/c02bits)
 
-/-- REGENERATED FACT.  The model's `twosComplement` IS the sign test and the two's complement
-    expression of read.go trySEndian -/
-theorem gen_twosComplement_ok (nBits : Nat) (n : BitVec 64) :
-    FqModel.Gen.BitFns.twosComplement nBits n = FqModel.Scalar.twosComplement nBits n := rfl
+  For each function f the generator says `f_translated` (the Go source is in the translatable
+  fragment) and `f_same_as_model` (the translation is token for token the model's text).  When
+  `f_same_as_model` the theorem below is the REGENERATED tie: Gen.f = Model.f by definitional
+  unfolding.  When it is not (the source was rewritten — equivalently or not — or left the fragment)
+  the hypothesis is false, the theorem says nothing, and the tie of f is the correspondence run:
+  harness/cmd/c02 calls the real function (`fn rev64 / twos / f16 / f80` cases: all widths × boundary
+  patterns × random values, all 65 536 float16 patterns) and the driver compares with the model and
+  with the specification.  Which tie a run used is in the evidence (harness_stats tie_regenerated_f). -/
 
-/-- REGENERATED FACT.  The model's `expandF16ToF32` (and its normalisation loop) IS
-    mathx.expandF16ToF32 as translated statement by statement from float16.go -/
-theorem gen_f16NormLoop_ok : ∀ (fuel frac exp : Nat),
-    FqModel.Gen.BitFns.expandF16ToF32_loop0 fuel frac exp = FqModel.Scalar.f16NormLoop fuel frac exp := by
-  intro fuel
-  induction fuel with
-  | zero => intro frac exp; rfl
-  | succ n ih =>
-    intro frac exp
-    simp only [FqModel.Gen.BitFns.expandF16ToF32_loop0, FqModel.Scalar.f16NormLoop, ih,
-      FqModel.Gen.BitFns.u32, FqModel.Scalar.u32]
+open FqModel.Gen.BitFns in
+theorem gen_reverseBytes64_ok (hs : reverseBytes64_same_as_model = true) (nBits : Nat) (n : BitVec 64) :
+    FqModel.Gen.BitFns.reverseBytes64 nBits n = FqModel.Scalar.reverseBytes64 nBits n := by
+  first
+  | rfl
+  | exact absurd hs (by decide)
 
-theorem gen_expandF16ToF32_ok (h : Nat) :
+open FqModel.Gen.BitFns in
+theorem gen_twosComplement_ok (hs : twosComplement_same_as_model = true) (nBits : Nat) (n : BitVec 64) :
+    FqModel.Gen.BitFns.twosComplement nBits n = FqModel.Scalar.twosComplement nBits n := by
+  first
+  | rfl
+  | exact absurd hs (by decide)
+
+open FqModel.Gen.BitFns in
+theorem gen_expandF16ToF32_loop_ok (hs : expandF16ToF32_same_as_model = true) : ∀ (fuel frac exp : Nat),
+    FqModel.Gen.BitFns.expandF16ToF32_loop0 fuel frac exp = FqModel.Scalar.expandF16ToF32_loop0 fuel frac exp := by
+  first
+  | (intro fuel
+     induction fuel with
+     | zero => intro frac exp; rfl
+     | succ n ih =>
+       intro frac exp
+       simp only [FqModel.Gen.BitFns.expandF16ToF32_loop0, FqModel.Scalar.expandF16ToF32_loop0, ih])
+  | (intro fuel frac exp; rfl)
+  | exact absurd hs (by decide)
+
+open FqModel.Gen.BitFns in
+theorem gen_expandF16ToF32_ok (hs : expandF16ToF32_same_as_model = true) (h : Nat) :
     FqModel.Gen.BitFns.expandF16ToF32 h = FqModel.Scalar.expandF16ToF32 h := by
-  simp only [FqModel.Gen.BitFns.expandF16ToF32, FqModel.Scalar.expandF16ToF32, gen_f16NormLoop_ok,
-    FqModel.Gen.BitFns.u32, FqModel.Scalar.u32]
-  rfl
+  first
+  | (simp only [FqModel.Gen.BitFns.expandF16ToF32, FqModel.Scalar.expandF16ToF32, gen_expandF16ToF32_loop_ok hs]
+     done)
+  | (simp only [FqModel.Gen.BitFns.expandF16ToF32, FqModel.Scalar.expandF16ToF32, gen_expandF16ToF32_loop_ok hs]
+     rfl)
+  | exact absurd hs (by decide)
 
-/-- REGENERATED FACT.  The model's `f80to64` IS mathx.Float80.Float64 as translated from float80.go
-    (field extraction, the NaN / ±Inf branches, exponent 0 treated as 1, bias 16383 + 63, big.Float of
-    precision 64 rounded once, sign applied last) -/
-theorem gen_f80to64_ok (se m : Nat) :
-    FqModel.Gen.BitFns.f80to64 se m = FqModel.Scalar.f80to64 se m := rfl
+open FqModel.Gen.BitFns in
+theorem gen_f80to64_ok (hs : f80to64_same_as_model = true) (se m : Nat) :
+    FqModel.Gen.BitFns.f80to64 se m = FqModel.Scalar.f80to64 se m := by
+  first
+  | rfl
+  | exact absurd hs (by decide)
 
 end Props.C02
